@@ -195,3 +195,49 @@ func VerifDirectiveTokens(k int) ([]lexer.Token, int) {
 	}
 	return append(toks, body...), len(fixedKinds)
 }
+
+// VerifPoolTokens: `grammar g ;` followed by k arbitrary tokens whose lexemes come from small pools
+// chosen by kind and position, so that undefined, doubly defined and equal-valued terminals, unknown
+// predefined names, invalid patterns, rules without production and missing start rules all arise.
+func VerifPoolTokens(k int, variant int) ([]lexer.Token, int) {
+	fixedKinds := []string{"grammar", "IDENT", ";"}
+	fixedLex := []string{"grammar", "g", ";"}
+	switch variant {
+	case 1: // a rule that uses a token and a literal comes first
+		fixedKinds = append(fixedKinds, "IDENT", "=", "STRING", "TOKEN", ";")
+		fixedLex = append(fixedLex, "start", "=", "s", "TA", ";")
+	case 2: // two token definitions come first
+		fixedKinds = append(fixedKinds, "TOKEN", "=", "STRING", ";", "TOKEN", "=", "REGEX", ";")
+		fixedLex = append(fixedLex, "TA", "=", "s", ";", "TB", "=", "x", ";")
+	case 3: // a directive and a start rule come first
+		fixedKinds = append(fixedKinds, "@left", "STRING", ";", "IDENT", "=", "STRING", "IDENT", ";")
+		fixedLex = append(fixedLex, "@left", "s", ";", "start", "=", "s", "aa", ";")
+	}
+	toks := make([]lexer.Token, 0, len(fixedKinds)+k)
+	for i := range fixedKinds {
+		toks = append(toks, lexer.Token{Terminal: grammar.Terminal(fixedKinds[i]), Lexeme: fixedLex[i],
+			Pos: lexer.Position{Filename: "f", Offset: 1000 + i, Line: 50 + i, Column: 3}})
+	}
+	body := symTokens(k)
+	for i := range body {
+		to := make([]string, len(lrTermNames))
+		for j, n := range lrTermNames {
+			switch n {
+			case "IDENT":
+				to[j] = []string{"start", "aa", "aa"}[i%3]
+			case "TOKEN":
+				to[j] = []string{"TA", "TB"}[i%2]
+			case "STRING":
+				to[j] = []string{"s", "t", "s"}[i%3]
+			case "REGEX":
+				to[j] = []string{"x", "y", "(", "x"}[i%4]
+			case "PREDEF":
+				to[j] = []string{"$ID", "$DIGIT", "$BOGUS", "$ID"}[i%4]
+			default:
+				to[j] = body[i].Lexeme
+			}
+		}
+		body[i].Lexeme = verif.EnumMap(string(body[i].Terminal), lrTermNames, to)
+	}
+	return append(toks, body...), len(fixedKinds)
+}
